@@ -987,7 +987,7 @@ def status_line_scenario(ctx, viol):
     of the build was lost from the live output.  All lines of the script must appear exactly once, in order."""
     name = "a" + "\u00e9" * 40
     stats = {}
-    for width in (70, 71, 5, 30):
+    for width in (70, 71, 5, 30, 16, 17):          # 16/17: `inner` fits or not by exactly one column
         pr = Project()
         try:
             pr.write(name + ".do", "echo first >&2\nsleep 1.7\necho second >&2\nredo-ifchange inner\necho third >&2\necho x\n")
